@@ -6,14 +6,15 @@
 (*   drift:<clause>     the code did something the spec action does not predict       *)
 (*                                                                                    *)
 (* Events of one trace, in this order (the driver always writes all of them):         *)
-(*   Begin   names [[char]], kinds [kind], option [[char]], wf                           *)
+(*   Begin   names [[char]], kinds [kind], tdep [tdep], option [[char]], wf              *)
 (*                                          the system: its series in the solver's      *)
 (*                                          order, and the exclusion option as handed   *)
 (*                                          to the solver; which series the loop skips  *)
 (*                                          is decided HERE (SkippedSet), not by the    *)
 (*                                          driver                                      *)
 (*   Copy    deep, same_*                   observed inside _GetCopy (harness wrapper) *)
-(*   Freeze  frozen, hor_ok, same_*         observed at the first SolveStep of the copy*)
+(*   Freeze  frozen, hor_ok, axis_ok, same_*  observed at the first SolveStep of the copy *)
+(*                                          (axis_ok: its k series is -T..0)            *)
 (*   Run     res, want, cls [class], same_* observed when the call is over            *)
 (*   Judge   idx, gen, inst, steady         one per series; gen = the class the system  *)
 (*                                          was generated for (= observed class for    *)
@@ -40,8 +41,8 @@ SetOfSeq(s) == { s[i] : i \in 1..Len(s) }
 
 Untouched(e) == IF e.same_eq /\ e.same_exo /\ e.same_hor THEN Ok ELSE P("C15_LeavesSolverUntouched")
 
-Reset(nms, kds, opt, w) ==
-    /\ phase' = "idle" /\ n' = Len(nms) /\ names' = nms /\ kinds' = kds /\ option' = opt /\ wf' = w /\ sid' = 0
+Reset(nms, kds, tds, opt, w) ==
+    /\ phase' = "idle" /\ n' = Len(nms) /\ names' = nms /\ kinds' = kds /\ tdep' = tds /\ option' = opt /\ wf' = w /\ sid' = 0
     /\ excluded' = SkippedSet(nms, kds, opt)
     /\ runres' = "none" /\ cls' = << >> /\ judged' = {} /\ bad' = {} /\ exc' = ""
     /\ outer' = Outer0 /\ inner' = NoCopy
@@ -58,14 +59,15 @@ JudgeOutcome(e) ==
 
 NoNames == << << "x" >> >>
 NoKinds == << "solved" >>
-TraceInit == Setup(NoNames, NoKinds, {}, TRUE, 0) /\ l = 1 /\ verdict = Ok /\ unsteady = 0
+NoTDep == << "none" >>
+TraceInit == Setup(NoNames, NoKinds, NoTDep, {}, TRUE, 0) /\ l = 1 /\ verdict = Ok /\ unsteady = 0
 
 TraceNext ==
     /\ l <= Len(Log)
     /\ l' = l + 1
     /\ LET e == Log[l] IN
        \/ /\ e.ev = "Begin"
-          /\ Reset(e.names, e.kinds, SetOfSeq(e.option), e.wf)
+          /\ Reset(e.names, e.kinds, e.tdep, SetOfSeq(e.option), e.wf)
           /\ verdict' = Ok /\ unsteady' = 0
        \/ /\ e.ev = "Copy"
           /\ Copy
@@ -74,7 +76,8 @@ TraceNext ==
        \/ /\ e.ev = "Freeze"
           /\ FreezeExogenous
           /\ verdict' = W3(verdict, Untouched(e),
-                           IF e.frozen /\ e.hor_ok THEN Ok ELSE D("freeze_exogenous"))
+                           IF ~(e.frozen /\ e.hor_ok) THEN D("freeze_exogenous")
+                           ELSE IF ~e.axis_ok THEN D("search_time_axis") ELSE Ok)
           /\ UNCHANGED unsteady
        \/ /\ e.ev = "Run"
           /\ IF e.res = "other" /\ wf
@@ -100,7 +103,7 @@ TraceNext ==
           /\ UNCHANGED unsteady
        \/ /\ e.ev = "End"
           /\ PrintT(<< "VERDICT", e.tid, verdict.kind \o ":" \o verdict.clause >>)
-          /\ Reset(NoNames, NoKinds, {}, TRUE)
+          /\ Reset(NoNames, NoKinds, NoTDep, {}, TRUE)
           /\ verdict' = Ok /\ unsteady' = 0
 
 TraceSpec == TraceInit /\ [][TraceNext]_tvars
